@@ -139,3 +139,7 @@ _MDS_FNS = ["fft::real_u64::{fft2_real, ifft2_real_unreduced, fft4_real, ifft4_r
             "mds::mds_multiply (every state: canonical result == MDS row times state mod M)"]
 verus_unit("mds8v", "mds8", ["C11"], ["mds_f64_8x8: " + f for f in _MDS_FNS], rlimit=200)
 verus_unit("mds12v", "mds12", ["C11"], ["mds_f64_12x12: " + f for f in _MDS_FNS], rlimit=200)
+
+verus_unit("rescuev", "rescuev", ["C11"], [
+    "Rp64_256::apply_round / apply_permutation / apply_sbox", "RpJive64_256::apply_round / apply_permutation / apply_sbox", "rp62_248::apply_round / apply_permutation",
+    "round r == add ARK2[r] . MDS . inverse S-box . add ARK1[r] . MDS . S-box; permutation == 7 rounds in order; 64-bit S-box == lane-wise exp7 (template generated by tools/gen_rescue_units.py)"])
